@@ -128,11 +128,38 @@ def parseObs (s : String) : Option (Option Obs) :=
 
 def fields : List Nat := [1, 2, 3]
 
+/-- `via=hook`: fillConf is the real config decoder, its invocations are not logged -/
+def eraseFills (o : Obs) : Obs :=
+  { o with steps := o.steps.map fun s => { s with evs := s.evs.filter (!isFill ·) } }
+
+/-- the Spec on an observation without fill events: errors and configuration in full (the user's settings ARE
+applied), the per-call structure (default-config / constructor / factory invocations, identities, views) as for a
+run without fillConf -/
+def judgeHook (inp : Input) (obs : Option Obs) : String :=
+  let noFill : Input := { inp with w := { inp.w with hasFill := false } }
+  match obs with
+  | none => judge inp obs fields
+  | some o =>
+    if !registerOk inp.sh then "fail:registered:invalid registration accepted"
+    else if o.steps.any (fun s => s.evs.any isFill) then "fail:driver:fill event on the hook path"
+    else if !errorsOk inp o then "fail:errors:error not delivered as the error result / panic rule"
+    else if !configOk inp o fields then "fail:config:product config is not defaults overlaid by user settings"
+    else if freshApplies noFill && !freshOk noFill o then "fail:fresh:config not created per product or shared between products"
+    else if onceApplies noFill && !onceOk noFill o then "fail:once:factory constructor not configured exactly once"
+    else "ok"
+
 def handle : Handler := fun input impl =>
   match parseInput input with
   | none => ("-", "fail:driver:unparsable input")
   | some inp =>
-    let m := showObs inp.sh (run inp)
+    let hook := getS (parseKV input) "via" == "hook"
+    if hook && !inp.w.hasFill then ("-", "fail:driver:via=hook needs fill=1") else
+    let m := showObs inp.sh (if hook then (run inp).map eraseFills else run inp)
+    -- an operation that hands out neither a component nor an error (a nil component with a nil error, printed
+    -- `nil` by the harness) has no place in `Res`: that is an error that did not reach the caller
+    if (splitList (getS (parseKV impl) "steps") ";").any (fun st => st.endsWith ">nil") then
+      (m, "fail:errors:nil component with nil error (an error did not reach the caller)")
+    else
     match parseObs impl with
     | none => (m, s!"fail:crash:unparsable observation {impl.take 120}")
     | some obs =>
@@ -143,6 +170,6 @@ def handle : Handler := fun input impl =>
             | .ok p => if p.seen == [(0, 0), (1, 0), (2, 0), (3, 0)] then { s with res := .ok { p with seen := [] } } else s
             | _ => s }
         else obs
-      (m, judge inp obs fields)
+      (m, if hook then judgeHook inp obs else judge inp obs fields)
 
 end Pandora.Drv.C18
